@@ -14,30 +14,37 @@ CONSTANTS NSpare,         \* number of object ids available for copies
           MaxCopies,      \* number of copy() calls per history
           MaxLevel,       \* depth bound (states deeper than this are checked but not expanded); 0 = none
           ShallowSlots,   \* COUNTER-DESIGN: slots copy() copies by reference   ({} = magpylib's design)
-          KeepParent      \* COUNTER-DESIGN: copy() keeps the parent link       (FALSE = magpylib's design)
+          KeepParent,     \* COUNTER-DESIGN: copy() keeps the parent link       (FALSE = magpylib's design)
+          AliasArgs,      \* COUNTER-DESIGN: slots for which the copy refers to the caller's argument cell ({})
+          MergeInPlace    \* COUNTER-DESIGN: an extra style keyword is merged into the caller's style template (FALSE)
 VARIABLES st, ne, pairs, last
 vars == <<st, ne, pairs, last>>
 
 Spare == SubSeq(<<"N1", "N2", "N3", "N4", "N5", "N6", "N7", "N8", "N9", "N10">>, 1, NSpare)
 Base == {"C1", "S1", "C2", "X1"}
-Kind0 == [o \in Base |-> IF o \in {"C1", "C2"} THEN "C" ELSE IF o = "S1" THEN "S" ELSE "X"]
+\* the caller's argument node: a position array, an attribute array and a style template the caller keeps and reuses
+ArgNode == "A1"
+Args == {ArgNode}
+ArgSlots == {"_position", "_attr", StySlot}
+Kind0 == [o \in Base \cup Args |-> IF o \in {"C1", "C2"} THEN "C" ELSE IF o = "S1" THEN "S" ELSE IF o = "X1" THEN "X" ELSE "A"]
 SlotsOfKind(k) == IF k = "C" THEN {"_position", "_orientation", StySlot, KwSlot, KidSlot}
+                  ELSE IF k = "A" THEN ArgSlots
                   ELSE {"_position", "_orientation", "_attr", StySlot, KwSlot}
 Cell(x, s, g) == <<x, s, g>>
 St0(mode, lab0) ==
    [kind |-> Kind0,
-    parent |-> [o \in Base |-> IF o = "C1" THEN None ELSE IF o = "X1" THEN "C2" ELSE "C1"],
+    parent |-> [o \in Base \cup Args |-> IF o \in {"C1", ArgNode} THEN None ELSE IF o = "X1" THEN "C2" ELSE "C1"],
     srcs |-> [c \in {"C1", "C2"} |-> IF c = "C1" THEN <<"S1">> ELSE <<>>],
     sens |-> [c \in {"C1", "C2"} |-> IF c = "C2" THEN <<"X1">> ELSE <<>>],
     colls |-> [c \in {"C1", "C2"} |-> IF c = "C1" THEN <<"C2">> ELSE <<>>],
-    refs |-> [o \in Base |-> [s \in SlotsOfKind(Kind0[o]) |-> Cell(o, s, 0)]],
-    val |-> [c \in UNION {{Cell(o, s, 0) : s \in SlotsOfKind(Kind0[o]) \ {KidSlot}} : o \in Base} |-> 0],
+    refs |-> [o \in Base \cup Args |-> [s \in SlotsOfKind(Kind0[o]) |-> Cell(o, s, 0)]],
+    val |-> [c \in UNION {{Cell(o, s, 0) : s \in SlotsOfKind(Kind0[o]) \ {KidSlot}} : o \in Base \cup Args} |-> IF c[1] = ArgNode THEN 1 ELSE 0],
     kids |-> [c \in {Cell("C1", KidSlot, 0), Cell("C2", KidSlot, 0)} |->
                  IF c = Cell("C1", KidSlot, 0) THEN <<"S1", "C2">> ELSE <<"X1">>],
-    sty |-> [o \in Base |-> mode],
-    lab |-> [o \in Base |-> IF mode = "none" THEN -1 ELSE lab0]]
+    sty |-> [o \in Base \cup Args |-> IF o = ArgNode THEN "init" ELSE mode],
+    lab |-> [o \in Base \cup Args |-> IF mode = "none" \/ o = ArgNode THEN -1 ELSE lab0]]
 
-Universe == Base \cup Range(Spare)
+Universe == Base \cup Args \cup Range(Spare)
 UsedCells(s) == UNION {{s.refs[o][t] : t \in DOMAIN s.refs[o]} : o \in HObjs(s)}
 \* allocator: for the pair <<x, t>> the cell <<x, t, g>> with the smallest generation nobody refers to
 FreshCell(s, x, t) == Cell(x, t, CHOOSE g \in 0..Cardinality(Universe) :
@@ -49,17 +56,19 @@ FreeSeq(s) == FilterSeq(Spare, LAMBDA x : x \notin HObjs(s))
 FlatOf(s, o) == IF HColl(s, o) THEN <<o>> \o AllBelow(TreeView(s), o) ELSE <<o>>
 RenOf(s, o) == LET fl == FlatOf(s, o) fr == FreeSeq(s) IN
     [x \in Range(fl) |-> fr[CHOOSE i \in DOMAIN fl : fl[i] = x]]
-OvrSlots(s, o) == (DOMAIN s.refs[o] \ {KwSlot, KidSlot}) \cup {"label"}
-Overrides(s, o) == {[a \in S |-> IF a = "label" THEN 7 ELSE 1] : S \in {T \in SUBSET OvrSlots(s, o) : Cardinality(T) <= MaxOvr}}
-
-Copy(o, ovr) ==
+\* keyword forms: any set of at most MaxOvr keywords among the slots the object has and the label; the values of the
+\* slots are read from the caller's argument node; a style template may come with an extra underscore keyword
+OvrSlotSets(s, o) == {T \in SUBSET (DOMAIN s.refs[o] \cap ArgSlots) : Cardinality(T) <= MaxOvr}
+Copy(o, slots, extra, lab) ==
     /\ Cardinality(pairs) < MaxCopies
     /\ Len(FreeSeq(st)) >= Len(FlatOf(st, o))
+    /\ Cardinality(slots) + (IF lab >= 0 THEN 1 ELSE 0) <= MaxOvr
+    /\ (extra >= 0 => StySlot \in slots)
     /\ LET ren == RenOf(st, o)
            newc == [p \in UNION {{<<ren[x], t>> : t \in DOMAIN st.refs[x]} : x \in DOMAIN ren} |-> Cell(p[1], p[2], 0)]
-       IN /\ st' = CopyF(st, o, ovr, ren, newc, ShallowSlots, KeepParent)
+       IN /\ st' = CopyWithArgsF(st, o, ArgNode, slots, extra, lab, ren, newc, ShallowSlots, KeepParent, AliasArgs, MergeInPlace)
           /\ pairs' = pairs \cup {<<o, ren[o]>>}
-          /\ last' = [op |-> "copy", o |-> o, ren |-> ren, ovr |-> ovr, touched |-> {}]
+          /\ last' = [op |-> "copy", o |-> o, ren |-> ren, ovr |-> OvrFromArgs(st, ArgNode, slots, extra, lab), touched |-> {}]
     /\ UNCHANGED ne
 Mutate(o, s, v) ==
     /\ st' = MutateF(st, o, s, v)
@@ -88,11 +97,11 @@ Unparent(o) ==
 Init == /\ \E m \in StyleModes, l \in {-1, 0} : st = St0(m, l)
         /\ ne = 0 /\ pairs = {} /\ last = [op |-> "init", touched |-> {}]
 Next == \E o \in HObjs(st) :
-          \/ \E ovr \in Overrides(st, o) : Copy(o, ovr)
+          \/ (o \notin Args /\ \E slots \in OvrSlotSets(st, o), extra \in {-1} \cup Vals, lab \in {-1, 7} : Copy(o, slots, extra, lab))
           \/ \E s \in DOMAIN st.refs[o] \ {KidSlot, KwSlot} : \E v \in Vals \ {PubOf(st, o)[s]} :
-                 Mutate(o, s, v) \/ (s # StySlot /\ Assign(o, s, v))
-          \/ \E c \in {x \in HObjs(st) : st.kind[x] = "C"} : Add(c, o)
-          \/ Unparent(o)
+                 Mutate(o, s, v) \/ (s # StySlot /\ o \notin Args /\ Assign(o, s, v))
+          \/ (o \notin Args /\ \E c \in {x \in HObjs(st) : st.kind[x] = "C"} : Add(c, o))
+          \/ (o \notin Args /\ Unparent(o))
 Spec == Init /\ [][Next]_vars
 \* the content of value cells influences neither the enabling nor the shape of any step: the structural view
 StructView == <<[st EXCEPT !.val = [c \in DOMAIN @ |-> 0]], ne, pairs>>
@@ -106,10 +115,11 @@ NoAliasInv == LET all == UNION {{<<a, s>> : s \in DOMAIN st.refs[a]} : a \in HOb
               IN Cardinality({st.refs[p[1]][p[2]] : p \in all}) = Cardinality(all)
 ForestHeapInv == ForestInv(TreeView(st))
 IsCopy == last'.op = "copy"
-NoSharingP          == [][IsCopy => NoSharing(ObsOf(st'), last'.o, last'.ren[last'.o]) /\ CopyCellsPrivate(ObsOf(st'), last'.ren[last'.o])]_vars
+NoSharingP          == [][IsCopy => NoSharing(ObsOf(st'), last'.o, last'.ren[last'.o]) /\ CopyCellsPrivate(ObsOf(st'), last'.ren[last'.o], Args)]_vars
 CopyParentlessP     == [][IsCopy => CopyParentless(ObsOf(st'), last'.ren[last'.o])]_vars
 CopySubtreeForestP  == [][IsCopy => CopySubtreeForest(ObsOf(st), ObsOf(st'), last'.o, last'.ren)]_vars
 OriginalUntouchedP  == [][IsCopy => OriginalUntouched(ObsOf(st), ObsOf(st'))]_vars
+ArgumentsP          == [][IsCopy => ArgumentsUntouched(ObsOf(st), ObsOf(st'), Args) /\ ArgumentsNotAliased(ObsOf(st'), last'.ren[last'.o], Args)]_vars
 EqualProjectionP    == [][IsCopy => EqualProjection(ObsOf(st), ObsOf(st'), last'.o, last'.ren, FreeByOverride(ObsOf(st), last'.o, last'.ovr))]_vars
 OverridesOnlyCopyP  == [][IsCopy => /\ OverridesApplied(ObsOf(st'), last'.ren[last'.o], [a \in DOMAIN last'.ovr \ {"label"} |-> last'.ovr[a]])
                                      /\ ("label" \in DOMAIN last'.ovr => st'.lab[last'.ren[last'.o]] = last'.ovr["label"])
@@ -117,7 +127,7 @@ OverridesOnlyCopyP  == [][IsCopy => /\ OverridesApplied(ObsOf(st'), last'.ren[la
 LabelIterP          == [][IsCopy /\ "label" \notin DOMAIN last'.ovr =>
                              st'.lab[last'.ren[last'.o]] = (IF st.sty[last'.o] = "none" THEN st.lab[last'.o] ELSE Iter(st.lab[last'.o]))]_vars
 \* the clause dispatcher used by the trace validator agrees with the individual clauses
-CopyClauseP         == [][IsCopy => CopyClause(ObsOf(st), ObsOf(st'), last'.o, last'.ren, last'.ovr, FreeByOverride(ObsOf(st), last'.o, last'.ovr)) = "ok"]_vars
+CopyClauseP         == [][IsCopy => CopyClause(ObsOf(st), ObsOf(st'), last'.o, last'.ren, last'.ovr, FreeByOverride(ObsOf(st), last'.o, last'.ovr), Args) = "ok"]_vars
 \* any later change is invisible to every object the operation does not address
 Independence == [][~IsCopy => IndependentStep(ObsOf(st), ObsOf(st'), HObjs(st) \ last'.touched)]_vars
 \* ... in the words of the property: for every (original, copy) pair living in different trees, a change on one
@@ -133,7 +143,7 @@ StepOK == LET pre == ObsOf(st)
               post == ObsOf(st')
               l == last'
           IN IF l.op = "copy"
-             THEN /\ CopyClause(pre, post, l.o, l.ren, l.ovr, FreeByOverride(pre, l.o, l.ovr)) = "ok"
+             THEN /\ CopyClause(pre, post, l.o, l.ren, l.ovr, FreeByOverride(pre, l.o, l.ovr), Args) = "ok"
                   /\ NoSharing(post, l.o, l.ren[l.o])
                   /\ (IF "label" \in DOMAIN l.ovr THEN post.lab[l.ren[l.o]] = l.ovr["label"]
                       ELSE post.lab[l.ren[l.o]] = (IF st.sty[l.o] = "none" THEN pre.lab[l.o] ELSE Iter(pre.lab[l.o])))
